@@ -171,6 +171,12 @@ func (fc *FnCtx) binop(op token.Token, x, y Term, xt, yt, rt types.Type, pos tok
 			fc.declareOnce("streq", "(declare-fun streq (Slice Slice) Bool)\n(assert (forall ((a Slice)) (streq a a)))\n(assert (forall ((a Slice) (b Slice)) (=> (streq a b) (= (sl_len a) (sl_len b)))))\n(assert (forall ((a Slice) (b Slice)) (= (streq a b) (streq b a))))")
 			fc.note("string equality is an uninterpreted equivalence (reflexive, symmetric, equal lengths)")
 			r = mk(app("streq", x.S, y.S), SBool, nil)
+		case xs == SPtr && (x.S == "PNull" || y.S == "PNull"):
+			o := x
+			if x.S == "PNull" {
+				o = y
+			}
+			r = mk(fmt.Sprintf("(is_PNull %s)", o.S), SBool, nil)
 		default:
 			r = tEq(x, y)
 		}
